@@ -153,7 +153,33 @@ def gen_config(rng, alpha_kinds=("fixed", "single"), allow_fail=True):
     cfg["default_dh"] = alpha in ("fixed", "single") and rng.random() < 0.2
     # the library prints every event by default; a quarter of the configurations run with printing ON (output discarded)
     cfg["printing"] = rng.random() < 0.25
+    # a sixth of the configurations: an account so small that a weighted asset's share buys less than one unit at the
+    # dearer price levels - a held asset whose target becomes ZERO UNITS (not zero weight) has to be sold.  Chosen from
+    # the configuration's own content, so that the stream of random draws (and with it every other configuration) stays as it was.
+    import json
+    import zlib
+    h = zlib.crc32(json.dumps(cfg, sort_keys=True).encode())
+    if h % 6 == 0:
+        cfg["cash"] = [40000, 64000, 100000][(h // 6) % 3]
     return cfg
+
+
+def gen_zero_units_config(rng):
+    """A daily fixed-weight backtest on an account so small, with closes alternating between the cheapest and the dearest
+    level, that a weighted asset's target goes 1 unit -> 0 units -> 1 unit: a holding whose target is ZERO UNITS at a
+    non-zero weight has to be sold like any other."""
+    while True:
+        c = gen_config(rng, alpha_kinds=("fixed",), allow_fail=False)
+        if c["sched"] == "daily" and len(c["weights"]) >= 2 and c["market"] and c["burn"] == -1:
+            break
+    c["cash"] = rng.choice([40000, 64000])
+    c["default_dh"] = False
+    phase = dict((a, rng.randrange(2)) for a in c["market"])
+    for a, bars in c["market"].items():
+        for d in bars:
+            cl = [8000, 16000][(int(d) + phase[a]) % 2] if rng.random() < 0.85 else rng.choice(PRICE_LEVELS)
+            bars[d] = [rng.choice([8000, 10000]) if bars[d][0] else 0, cl if bars[d][1] else 0]
+    return c
 
 
 def _weights(rng, keys, kind):
@@ -186,10 +212,12 @@ def cases_module(cfgs):
 
 
 # ---------------------------------------------------------------------------------------------
-def write_market(dirpath, market, rng=None, adj_factor=None):
-    """CSV files (rows shuffled when rng is given).  Adj Close = Close, so adjusted = raw prices."""
+def write_market(dirpath, market, rng=None, adj=None):
+    """CSV files (rows shuffled when rng is given).  Adj Close = Close, so adjusted = raw prices, unless `adj`
+    (asset -> day -> adjusted close in mils, 0 = blank cell) says otherwise (two-world runs only: the model is not involved)."""
     import pandas as pd
     for a, bars in market.items():
+        adjmap = (adj or {}).get(a, {})
         rows = sorted((int(d), oc) for d, oc in bars.items())
         if rng is not None:
             rng.shuffle(rows)
@@ -201,7 +229,7 @@ def write_market(dirpath, market, rng=None, adj_factor=None):
             for d, (o, c) in rows:
                 date = (EPOCH + pd.Timedelta(days=d)).strftime("%Y-%m-%d")
                 f = lambda x: "" if x == 0 else repr(x / 1000.0)
-                cell = {"Date": date, "Open": f(o), "High": f(99000), "Low": f(1000), "Close": f(c), "Adj Close": f(c), "Volume": "1000"}
+                cell = {"Date": date, "Open": f(o), "High": f(99000), "Low": f(1000), "Close": f(c), "Adj Close": f(adjmap.get(str(d), c)), "Volume": "1000"}
                 fh.write(",".join(cell[k] for k in cols) + "\n")
 
 
@@ -386,7 +414,7 @@ def run_real(c, rng=None, signals_factory=None, alpha_factory=None, csv_dir=None
     own = csv_dir is None
     if own:
         csv_dir = tempfile.mkdtemp(prefix="qsv-sess-")
-        write_market(csv_dir, c["market"], rng)
+        write_market(csv_dir, c["market"], rng, adj=c.get("adj"))
     out = Outcome()
     ob = Observer()
     try:
@@ -554,7 +582,7 @@ def record_session_trace(c, ident, rng=None):
     the run's magnitudes would leave TLC's 32-bit integers (gross quantity x total paid per position)."""
     csv_dir = tempfile.mkdtemp(prefix="qsv-sesst-")
     try:
-        write_market(csv_dir, c["market"], rng)
+        write_market(csv_dir, c["market"], rng, adj=c.get("adj"))
         ob = Observer()
         rec = BrokerRecorder(ob, [SYM[a] for a in ASSETS])
         with ob.installed():
